@@ -80,14 +80,23 @@ theorem fdt_groups_unaltered (cfg : Cfg) (ops : List Op) (now : Nat) :
     (instanceAt (run (init cfg) ops).1 now).groups = cfg.groups.getD [] := by
   simp only [instanceAt, run_cfg]; rfl
 
-/-- the TOIs handed out by `add` are pairwise different, so "the `add` that returned this TOI" is unique -/
+/-- the TOIs handed out by `add` are pairwise different, so "the `add` that returned this TOI" is unique - as long as the
+    TOI counter does not wrap around its configured width (after a wrap the allocator's skipping of still-reserved
+    TOIs keeps them apart: property C15, not modelled here) -/
 theorem added_tois_fresh (cfg : Cfg) (pre post : List Op) (a b : ObjAttrs) (t : Nat)
+    (hnw : (run (init cfg) pre).1.nextToi + (post.length + 1) < 2^cfg.toiBits)
     (h1 : (step (run (init cfg) pre).1 (.add a)).2.2 = .added (.ok t))
     (h2 : (Op.add b, Res.added (.ok t)) ∈ trace (step (run (init cfg) pre).1 (.add a)).1 post) : False := by
-  have hlt : t < (step (run (init cfg) pre).1 (.add a)).1.nextToi := by
-    simp only [step, Res.added.injEq] at h1 ⊢
-    exact add_ok_lt _ a t h1
-  exact trace_toi_ge _ post b t h2 |> fun h => absurd hlt (Nat.not_lt.mpr h)
+  have hcfg : (run (init cfg) pre).1.cfg = cfg := run_cfg (init cfg) pre
+  simp only [step, Res.added.injEq] at h1 h2
+  obtain ⟨ht, hn⟩ := add_ok_eq _ a t h1
+  rw [hcfg, succToi_of_lt _ _ (by omega)] at hn
+  have hc2 : (add (run (init cfg) pre).1 a).1.cfg = cfg := by
+    have := step_cfg (run (init cfg) pre).1 (.add a)
+    simp only [step] at this
+    rw [this, hcfg]
+  have := trace_toi_ge _ post b t h2 (by rw [hc2, hn]; omega)
+  omega
 
 /-! ## flute's receiver reads the same values back -/
 
@@ -195,14 +204,16 @@ theorem lastPublish_is_latest (cfg : Cfg) (ops : List Op) (p : Pub)
 /-- `superseded_before_expiry_partial` (duration > 30 s): after any history whose latest publication was at `T`, any
     continuation `ops` (any operations) all of whose time stamps lie before the expiry of that instance and that
     contains more polls of the idle FDT session later than `T + duration - 5 s` than there are instances still
-    queued, publishes a successor - before the expiry. -/
-theorem superseded_before_expiry_partial (cfg : Cfg) (hd : cfg.durationUs > 30000000) (pre ops : List Op) (T : Nat)
+    queued, publishes a successor - before the expiry (`hadm`: the FDT object fits the session default OTI, see below). -/
+theorem superseded_before_expiry_partial (cfg : Cfg) (hd : cfg.durationUs > 30000000)
+    (hadm : ∀ i, cfg.fdtFits i = true) (pre ops : List Op) (T : Nat)
     (hT : (run (init cfg) pre).1.lastPublish = some T)
     (hpolls : (run (init cfg) pre).1.queue.length < (ops.filter (isDuePoll cfg T)).length)
     (hbefore : ∀ op ∈ ops, ∀ t, opTime op = some t → t < expiryUs cfg.durationUs T) :
     ∃ p ∈ (run (run (init cfg) pre).1 ops).2, p.time < expiryUs cfg.durationUs T := by
   have hcfg : (run (init cfg) pre).1.cfg = cfg := run_cfg (init cfg) pre
-  have hne := supersede_core (run (init cfg) pre).1 T (by rw [hcfg]; exact hd) hT ops (by rw [hcfg]; exact hpolls)
+  have hne := supersede_core (run (init cfg) pre).1 T (by rw [hcfg]; exact hd) hT (by rw [hcfg]; exact hadm) ops
+    (by rw [hcfg]; exact hpolls)
   cases hps : (run (run (init cfg) pre).1 ops).2 with
   | nil => exact absurd hps hne
   | cons p ps =>
@@ -242,5 +253,30 @@ theorem superseded_before_expiry_false_11s :
     (run (init cfg) ops).2.map (fun p => p.time) = [1700000000999999, 1700000011999999] ∧
     expiryUs cfg.durationUs 1700000000999999 = 1700000011000000 := by
   decide
+
+/-! ## an FDT that does not fit the session default OTI (`FileDesc::new` refuses the FDT object) -/
+
+/-- an explicit `publish` that is refused returns the error and changes nothing: nothing is queued, the instance id is
+    not consumed, `last_publish` is untouched, the files are as before -/
+theorem refused_publish_changes_nothing (s : State) (now : Nat) (h : s.cfg.fdtFits (instanceAt s now) = false) :
+    step s (.publish now) = (s, [], .published false) := by
+  simp [step, tryPublish, h]
+
+/-- ... and the automatic publications (`self.publish(now).ok()` on expiry and on transfer start) swallow the error: when
+    the FDT never fits, NO instance is ever published whatever the application does and however often it polls, no id is
+    consumed and `last_publish` stays unset - the session is silently wedged (finding fdtabs-2) -/
+theorem refused_fdt_never_published (cfg : Cfg) (hadm : ∀ i, cfg.fdtFits i = false) (ops : List Op) :
+    (run (init cfg) ops).2 = [] ∧ (run (init cfg) ops).1.fdtid = cfg.startId ∧
+    (run (init cfg) ops).1.lastPublish = none := by
+  have h := run_never_admitted (init cfg) hadm ops
+  refine ⟨h, run_fdtid_nopub _ ops h, ?_⟩
+  rw [run_lastPublish, h]
+  rfl
+
+/-- ... while in ObjectsBeingTransferred mode the objects are started all the same (and sent without any FDT announcing
+    them - property C11's concern) -/
+theorem refused_fdt_objects_still_start (s : State) (t now : Nat) (h : s.files.any (fun f => f.toi = t) = true) :
+    (tstart s t now).1.files = s.files.map (fStart t) := by
+  rw [tstart_files, h]; rfl
 
 end Flute.Props.C10
